@@ -200,6 +200,8 @@ def matches(k, f):
         return False
     if "site_re" in m and not re.search(m["site_re"], f.get("site", "")):
         return False
+    if "what_re" in m and not re.search(m["what_re"], str(f.get("what", ""))):
+        return False
     return bool(m)
 
 
